@@ -156,6 +156,12 @@ MARGIN_PAST, MARGIN_FUTURE = 60, 180  # a time threshold is never closer than th
 BAD_KINDS = ["chain70000", "chain65536", "seq2p64", "nonce5", "fields5", "fields7", "cl256", "cl2p200", "sender31", "variant",
              "payloadU256"]
 TOK_SHAPES = ["fail", "short", "long", "failed0", "failed1", "failed2", "empty0", "empty1", "empty2", "badtype", "dec256"]
+# every sdk.Val variant as the single return value of each metadata method, except the one the method really returns
+# (symbol, name: ByteVec; decimals: U256 within 0..255)
+_VARIANTS = ["bool", "i256", "i256pos", "u256", "u256big", "bytevec", "address", "array", "array-empty", "array-nested", "array-bytevec"]
+VAL_SHAPES = ["val%d:%s" % (pos, v) for pos in (0, 1, 2) for v in _VARIANTS
+              if not (pos < 2 and v == "bytevec") and not (pos == 2 and v == "u256")]
+TOK_SHAPES = TOK_SHAPES + VAL_SHAPES
 
 
 def constants_from_source():
@@ -1355,6 +1361,17 @@ def pinned(prop):
             g.step(None); g.raise_height(2)
             g.step(None); g.raise_height(1)
             done(g, "append-after-count-p%d" % page)
+        # metadata answers of another value type than the method returns (one per position, arrays included): no usable contract
+        # answer, so the attestation is not forwarded, on the polling path and on re-observation
+        for shape in ("val0:array", "val1:bool", "val2:array-nested", "val2:bytevec", "val2:u256big", "val0:address"):
+            g = start()
+            g.op(op="tok", id="t5", shape=shape)
+            b = g.block(ts=-5000)
+            g.good(b, cl=0)
+            e = g.good(b, kind="attest", tok="t5", claim="m1", cl=0)
+            g.step(None); g.raise_height(2)
+            g.step(None); g.op(op="req", tx=e["tx"])
+            done(g, "metadata-answer-" + shape.replace(":", "-"))
         # stale / lagging height: the events of block h are served while the node still reports h-1 (and later falls back to it)
         for mode in ("poll", "reobs"):
             g = start()
